@@ -24,6 +24,7 @@ func checkC03(p *Prog, res *Result, tier string) {
 	res.rule("C03-R6", "the internal keys a read is addressed with are well-formed: encoder and decoder agree on the layout and the encoder returns a fresh array (C10-R1)", 5)
 	res.rule("C03-R7", "the revision a range answer names is the one its data was read at: one load of the committed revision before the scan feeds header and default read revision (C06-R2), and the etcd translation hands the backend's header on (C16-R9) - asking again at the named revision gives the same answer", 8)
 	res.rule("C03-R8", "a key-value handed to a result receiver is one stored record: key, value and revision are all three of the record under the iterator, or all three loop-carried copies of the previous record", 2)
+	res.rule("C03-R9", "the scan reads to the end of its partition: engine iterators of the scanner are opened with the constant record limit 0, and the end of the data is io.EOF itself (==), not an error that wraps it", 2)
 	res.rule("C03-R4", "scan attempts start from an empty receiver; partition borders stay contiguous; a failed partition fails the read (C13-R5/R6/R8)", 5)
 
 	// ---- R1 ----
@@ -299,6 +300,9 @@ func checkC03(p *Prog, res *Result, tier string) {
 		}
 	}
 
+	// ---- R9: the scan reads to the end of its partition ----
+	checkScanIteratorUnbounded(p, r, res, "C03-R9")
+
 	// ---- R8: a returned key-value is one stored record ----
 	checkResultRecordConsistent(p, r, res, "C03-R8")
 
@@ -506,5 +510,62 @@ func checkResultRecordConsistent(p *Prog, r *Roles, res *Result, rule string) {
 	}
 	if n == 0 {
 		res.und(rule, "scanner: result records", "-", "no append of a scanned record found")
+	}
+}
+
+// checkScanIteratorUnbounded: the scan worker decides itself when it has enough (the receiver's needMore), because only
+// it knows which records make up a key: the engine's iterator limit counts records - an index record and every version
+// - not keys. Every engine iterator the scanner package opens is opened with the constant limit 0.
+// And the worker tells the end of its partition from a failure by identity with io.EOF: an engine error that merely
+// wraps io.EOF (a broken stream) is not the end of the data.
+func checkScanIteratorUnbounded(p *Prog, r *Roles, res *Result, rule string) {
+	sp := p.ssaPkg("pkg/backend/scanner")
+	n := 0
+	var fs []*ssa.Function
+	for _, f := range p.AllFuncs {
+		if f.Pkg == sp && f.Blocks != nil && f.Synthetic == "" {
+			fs = append(fs, f)
+		}
+	}
+	sort.Slice(fs, func(i, j int) bool { return funcName(fs[i]) < funcName(fs[j]) })
+	for _, f := range fs {
+		k := 0
+		for _, c := range callsIn(f) {
+			if !c.Common().IsInvoke() || !r.is(c, r.KVIter) {
+				continue
+			}
+			k++
+			n++
+			construct := fmt.Sprintf("%s: iterator #%d is opened without a record limit", funcName(f), k)
+			lim := argForSigParam(c, 4)
+			if isZeroConst(resolve(lim)) {
+				res.ok(rule, construct, p.pos(c.Pos()), "limit operand is the constant 0")
+			} else {
+				res.bad(rule, construct, p.pos(c.Pos()), "the scan hands the engine a record limit: the limit counts records (index record and every version), not keys, so keys with several versions exhaust it and the scan takes the end of the budget for the end of the range - fewer keys with more=false, or a key at an old version; the in-process engine ignores the operand")
+			}
+		}
+		// end-of-data test
+		j := 0
+		for _, b := range f.Blocks {
+			for _, ins := range b.Instrs {
+				call, ok := ins.(*ssa.Call)
+				if !ok {
+					continue
+				}
+				sc := call.Common().StaticCallee()
+				if sc == nil || sc.Pkg == nil || sc.Name() != "Is" || (sc.Pkg.Pkg.Path() != "errors" && sc.Pkg.Pkg.Path() != "github.com/pkg/errors") || len(call.Common().Args) != 2 {
+					continue
+				}
+				g := globalLoad(call.Common().Args[1])
+				if g == nil || g.Pkg == nil || g.Pkg.Pkg.Path() != "io" || g.Name() != "EOF" {
+					continue
+				}
+				j++
+				res.bad(rule, fmt.Sprintf("%s: end of data #%d is io.EOF itself", funcName(f), j), p.pos(call.Pos()), "the end of the partition is recognised with errors.Is(err, io.EOF): an engine failure in the middle of the scan whose error wraps io.EOF (a broken stream) is taken for the end of the data, and the part scanned so far is returned as the complete answer")
+			}
+		}
+	}
+	if n == 0 {
+		res.und(rule, "scanner: engine iterators", "-", "none found")
 	}
 }
